@@ -142,4 +142,183 @@ def evalBytes : List Nat → Option (List Nat)
   | 98 :: q :: rest => if q = 39 ∨ q = 34 then finish (runE true q ⟨.normal, []⟩ rest) else none
   | _ => none
 
+/-! ### regex terminals: `Terminal.format_as_spec` for `is_regex`, `Terminal._spell_regex`
+
+A regex terminal is printed as a one-line *raw* literal `r'…'` / `r"…"` (`rb'…'` / `rb"…"` for a
+bytes pattern, whose text is the Latin-1 decoding of the bytes).  Raw literals have no escapes of
+their own, so whatever cannot stand in the literal is written as a *regex* escape `\xNN`:
+the delimiting quote when the pattern holds both quote kinds, `\n` / `\r`, and — for bytes —
+everything outside printable ASCII.  A backslash pairs with the character after it; when that
+character has to be spelled the pair `\c` is replaced as a whole.  -/
+
+/-- `spell(char) is not None` in `_spell_regex`: `quote` is `None` or the delimiter -/
+def needsSpell (quote : Option Nat) (asciiOnly : Bool) (c : Nat) : Bool :=
+  quote == some c || c == 10 || c == 13 || (asciiOnly && !(decide (32 ≤ c) && decide (c ≤ 126)))
+
+/-- `f"\\x{ord(char):02x}"` (exact for `c < 256`, the only values `spell` is asked for: the quote,
+    `\n`, `\r`, and Latin-1 decoded bytes) -/
+def hexEsc (c : Nat) : List Nat := 92 :: 120 :: hex2 c
+
+/-- `Terminal._spell_regex(pattern, quote, ascii_only)` -/
+def spellRegex (quote : Option Nat) (asciiOnly : Bool) : List Nat → List Nat
+  | [] => []
+  | [c] => if needsSpell quote asciiOnly c then hexEsc c else [c]
+  | b :: c :: rest =>
+    if b = 92 then
+      (if needsSpell quote asciiOnly c then hexEsc c else [92, c]) ++ spellRegex quote asciiOnly rest
+    else
+      (if needsSpell quote asciiOnly b then hexEsc b else [b]) ++ spellRegex quote asciiOnly (c :: rest)
+
+/-- the delimiter `format_as_spec` chooses and the quote it spells: `'` (nothing spelled) without a
+    `'`; else `"` (nothing spelled) without a `"`; else `'` with every `'` spelled `\x27` -/
+def regexQuote (pat : List Nat) : Nat × Option Nat :=
+  if !pat.contains 39 then (39, none)
+  else if !pat.contains 34 then (34, none)
+  else (39, some 39)
+
+/-- the pattern text that stands between the quotes -/
+def spelled (isBytes : Bool) (pat : List Nat) : List Nat :=
+  spellRegex (regexQuote pat).2 isBytes pat
+
+/-- `Terminal.format_as_spec()` of a regex terminal (str: `isBytes = false`; bytes: the Latin-1
+    decoded pattern, `isBytes = true`) -/
+def printRegex (isBytes : Bool) (pat : List Nat) : List Nat :=
+  let q := (regexQuote pat).1
+  (if isBytes then [114, 98] else [114]) ++ q :: (spelled isBytes pat ++ [q])
+
+/-! ### reading a one-line raw literal back: the lexer (`SHORT_STRING` / `SHORT_BYTES` of
+`FandangoLexer.g4` behind a prefix with an `r`) and CPython's evaluation of it (`Terminal.clean`:
+`eval(text)`).
+
+In a raw literal a backslash keeps itself *and* the character after it (so `\'` does not end the
+literal and both characters are part of the value); there are no other escapes.  Rejected:
+a line break (`\n`, `\r`; the lexer also excludes `\f` from a one-line *str* literal), NUL (CPython:
+"source code string cannot contain null bytes"), a lone surrogate (the text is not UTF-8 encodable),
+a non-ASCII character in a bytes literal, anything after the closing quote, a missing closing quote.
+Backslash followed by a line break / NUL is *not modelled* (answered `none`; the printer never
+writes it). -/
+
+def isSurrogate (c : Nat) : Bool := decide (55296 ≤ c) && decide (c ≤ 57343)
+
+/-- a character that may stand for itself in the body -/
+def rawCharOk (isBytes : Bool) (c : Nat) : Bool :=
+  c != 0 && c != 10 && c != 13 &&
+  (if isBytes then decide (c < 128) else c != 12 && decide (c < 1114112) && !isSurrogate c)
+
+/-- a character that may follow a backslash -/
+def rawEscOk (isBytes : Bool) (c : Nat) : Bool :=
+  c != 0 && c != 10 && c != 13 &&
+  (if isBytes then decide (c < 128) else decide (c < 1114112) && !isSurrogate c)
+
+inductive RMode where
+  | normal | esc | closed
+  deriving Repr, DecidableEq
+
+structure RSt where
+  mode : RMode
+  /-- characters of the value so far, latest first -/
+  out : List Nat
+  deriving Repr
+
+def stepR (isBytes : Bool) (q : Nat) (st : RSt) (c : Nat) : Option RSt :=
+  match st.mode with
+  | .closed => none
+  | .normal =>
+    if c = q then some { st with mode := .closed }
+    else if c = 92 then some { st with mode := .esc }
+    else if rawCharOk isBytes c then some { st with out := c :: st.out }
+    else none
+  | .esc => if rawEscOk isBytes c then some ⟨.normal, c :: 92 :: st.out⟩ else none
+
+def runR (isBytes : Bool) (q : Nat) : RSt → List Nat → Option RSt
+  | st, [] => some st
+  | st, c :: cs =>
+    match stepR isBytes q st c with
+    | some st' => runR isBytes q st' cs
+    | none => none
+
+def finishR : Option RSt → Option (List Nat)
+  | some ⟨.closed, out⟩ => some out.reverse
+  | _ => none
+
+/-- `Terminal.from_symbol`: a regex iff the prefix holds a lower-case `r` (`R'…'` is a raw, plain literal) -/
+def isR (c : Nat) : Bool := c == 114
+def isB (c : Nat) : Bool := c == 98 || c == 66
+def isQuote (c : Nat) : Bool := c == 39 || c == 34
+
+/-- value of a one-line raw literal: `(is_bytes, pattern)`; `none` = rejected (or not a one-line raw
+    literal, or not a *regex* literal).  Prefixes: `r` (str), `rb rB br Br` (bytes). -/
+def evalRaw : List Nat → Option (Bool × List Nat)
+  | a :: b :: rest =>
+    if isR a && isQuote b then
+      (finishR (runR false b ⟨.normal, []⟩ rest)).map (fun v => (false, v))
+    else
+      match rest with
+      | q :: body =>
+        if ((isR a && isB b) || (isB a && isR b)) && isQuote q then
+          (finishR (runR true q ⟨.normal, []⟩ body)).map (fun v => (true, v))
+        else none
+      | [] => none
+  | _ => none
+
+/-! ### the patterns the spec language can express, and "same regex"
+
+A pattern read from a spec file is the value of a raw literal, one-line or triple-quoted: backslashes
+pair up with the character after them (no lone backslash at the end), no NUL, no lone surrogate, no
+`\r` (CPython's tokenizer turns `\r` and `\r\n` into `\n` inside a triple-quoted literal); a bytes
+pattern holds bytes. -/
+
+def patCharOk (isBytes : Bool) (c : Nat) : Bool :=
+  if isBytes then decide (c < 256) else c != 0 && c != 13 && decide (c < 1114112) && !isSurrogate c
+
+/-- expressible as a raw literal; `bare` additionally asks that no *unescaped* form feed occurs in a
+    str pattern (see `C15_regex_formfeed_rejected`) -/
+def regexWf (isBytes : Bool) : List Nat → Bool
+  | [] => true
+  | [c] => c != 92 && patCharOk isBytes c
+  | b :: c :: rest =>
+    if b = 92 then patCharOk isBytes c && regexWf isBytes rest
+    else patCharOk isBytes b && regexWf isBytes (c :: rest)
+
+/-- no unescaped form feed (only asked of str patterns) -/
+def noBareFF : List Nat → Bool
+  | [] => true
+  | [c] => c != 12
+  | b :: c :: rest => if b = 92 then noBareFF rest else b != 12 && noBareFF (c :: rest)
+
+/-- the text consists of whole units (a character, or a backslash with the character after it) -/
+def atBoundary : List Nat → Bool
+  | [] => true
+  | [c] => c != 92
+  | b :: c :: rest => if b = 92 then atBoundary rest else atBoundary (c :: rest)
+
+/-- **Oracle assumption about `re`** (checked per case by the harness against CPython): wherever a
+    unit stands — `pre` consists of whole units — a character `c` that `_spell_regex` spells, written
+    as itself or as `\c`, means what `\xNN` means.  `D` is "what the pattern denotes"
+    (the harness: the compile error, or the verdicts of `re.fullmatch` on the candidate set). -/
+def HexEscapeSound {α : Type} (D : List Nat → α) (needs : Nat → Bool) : Prop :=
+  ∀ (pre post : List Nat) (c : Nat), atBoundary pre = true → c < 256 → needs c = true →
+    D (pre ++ c :: post) = D (pre ++ (hexEsc c ++ post)) ∧
+    D (pre ++ 92 :: c :: post) = D (pre ++ (hexEsc c ++ post))
+
+/-- does the printer rewrite anything in this pattern? -/
+def rewrites (quote : Option Nat) (asciiOnly : Bool) (pat : List Nat) : Bool :=
+  pat.any (needsSpell quote asciiOnly)
+
+/-- the instances `(before, after)` of `HexEscapeSound` that carry a pattern to its spelled form, one
+    rewriting at a time, left to right (the harness checks each pair against CPython `re`) -/
+def spellSteps (quote : Option Nat) (asciiOnly : Bool) : List Nat → List Nat → List (List Nat × List Nat)
+  | _, [] => []
+  | pre, [c] => if needsSpell quote asciiOnly c then [(pre ++ [c], pre ++ hexEsc c)] else []
+  | pre, b :: c :: rest =>
+    if b = 92 then
+      if needsSpell quote asciiOnly c then
+        (pre ++ 92 :: c :: rest, pre ++ (hexEsc c ++ rest)) :: spellSteps quote asciiOnly (pre ++ hexEsc c) rest
+      else spellSteps quote asciiOnly (pre ++ [92, c]) rest
+    else
+      if needsSpell quote asciiOnly b then
+        (pre ++ b :: c :: rest, pre ++ (hexEsc b ++ c :: rest))
+          :: spellSteps quote asciiOnly (pre ++ hexEsc b) (c :: rest)
+      else spellSteps quote asciiOnly (pre ++ [b]) (c :: rest)
+
 end FV.PyLit
